@@ -241,7 +241,7 @@ PROPS = {
     "C11": {
         "claim": "Theorems: once_at_most_once and first_result_kept over any history of calls; memo_hit; reuse_never_panics; the concurrent protocol theorem C12.once_concurrent (any number of threads, any schedule). A run-once function executes at most once over any history and later uses see the first result. Sequential part: histories of Call / Redefine on shared function objects are replayed through the model with the memo cells threaded, and the number of executions per run-once function is counted on the real trace. Concurrent part: see DESIGN.md (race-detector stress; not yet registered).",
         "note": "partial: the concurrent clause is decided by exploration under the race detector.",
-        "theorems": ["ArgMapper.C11.once_at_most_once", "ArgMapper.C11.first_result_kept", "ArgMapper.C11.memo_hit", "ArgMapper.C11.reuse_never_panics", "ArgMapper.C11.counterexample_ptr_result", "ArgMapper.C12.once_concurrent", "ArgMapper.C12.lock_holder_progresses", "ArgMapper.C12.counterexample_two_first_uses"], "facts": {"r5SkipSame": "true", "r6NameTest": "true", "publishAfterUpdate": "true", "trackReaching": "true", "takeValuedNamed": "true", "hopCopies": "true", "memoCopy": "true", "r8SkipSupplied": "true", "skipRecordsInput": "false", "dupIsError": "true", "onceLockCoversCall": "true"},
+        "theorems": ["ArgMapper.C11.once_at_most_once", "ArgMapper.C11.first_result_kept", "ArgMapper.C11.memo_hit", "ArgMapper.C11.reuse_never_panics", "ArgMapper.C11.counterexample_ptr_result", "ArgMapper.C12.once_concurrent", "ArgMapper.C12.lock_holder_progresses", "ArgMapper.C12.counterexample_two_first_uses", "ArgMapper.C11.once_at_most_once_hist", "ArgMapper.C11.first_result_kept_hist", "ArgMapper.C11.not_run_no_memo"], "facts": {"r5SkipSame": "true", "r6NameTest": "true", "publishAfterUpdate": "true", "trackReaching": "true", "takeValuedNamed": "true", "hopCopies": "true", "memoCopy": "true", "r8SkipSupplied": "true", "skipRecordsInput": "false", "dupIsError": "true", "onceLockCoversCall": "true"},
         "rule": "hist: a run-once function was needed at least once.",
         "runs": {"quick": [fam("hist", 800, 0), fam("redef", 300, 0), fam("race", 60, 4, "20", bin="harness-race")],
                  "thorough": [fam("hist", 60000, 0), fam("redef", 20000, 0), fam("race", 2000, 8, "60", bin="harness-race"), fam("race", 500, 16, "40", bin="harness-race")]},
